@@ -22,6 +22,56 @@ import shutil
 import sys
 import tempfile
 
+TAXII = "taxii" in sys.argv[1:]
+if TAXII:
+    # The TAXII classes need the taxii2client package (not installed here) and a server.  In a worker
+    # of its own, a stand-in package is put in sys.modules BEFORE stix2 is imported: a Collection that
+    # serves the objects it was given and records what is posted to it.  All stix2 code run is real.
+    import types
+
+    def _install_taxii_stub():
+        tc = types.ModuleType("taxii2client")
+        tc.__path__ = []
+        exc_m = types.ModuleType("taxii2client.exceptions")
+
+        class ValidationError(Exception):
+            pass
+        exc_m.ValidationError = ValidationError
+        mods = {"taxii2client": tc, "taxii2client.exceptions": exc_m}
+        for v in ("v20", "v21"):
+            m = types.ModuleType("taxii2client." + v)
+
+            class Collection(object):
+                can_read = True
+                can_write = True
+
+                def __init__(self, objects=None):
+                    self.objects = list(objects or [])
+                    self.posted = []
+
+                def get_object(self, obj_id, **kw):
+                    return {"objects": [o for o in self.objects if o.get("id") == obj_id]}
+
+                def get_objects(self, **kw):
+                    objs = self.objects
+                    if "id" in kw:
+                        objs = [o for o in objs if o.get("id") == kw["id"]]
+                    return {"objects": objs}
+
+                def add_objects(self, bundle):
+                    self.posted.append(bundle)
+
+            def as_pages(func, per_request=0, **kw):
+                yield func(**kw)
+            m.Collection = Collection
+            m.as_pages = as_pages
+            setattr(tc, v, m)
+            mods["taxii2client." + v] = m
+        tc.exceptions = exc_m
+        sys.modules.update(mods)
+        return mods["taxii2client.v21"].Collection
+    TaxiiCollection = _install_taxii_stub()
+
 import stix2
 from stix2 import parsing, registry
 from stix2.base import _STIXBase
@@ -234,7 +284,45 @@ def run_entry(name, cfg, d):
             return single(wb.get(oid), d)
         return guard(f, d), ["parse", own_allow({}, MemoryStore.__init__), False]
 
-    wrap = cfg.get("wrap")          # hand the object over inside a bundle dict / a list
+    wrap = cfg.get("wrap")          # hand the object over inside a bundle dict / a list / as JSON text
+
+    if name.startswith("taxii."):
+        from stix2.datastore.taxii import TAXIICollectionSink, TAXIICollectionSource, TAXIICollectionStore
+        ck = kw(cfg, ("allow_custom",))
+        cname, m = name.split(".")[1], name.split(".")[2]
+        C = {"TAXIICollectionSource": TAXIICollectionSource, "TAXIICollectionSink": TAXIICollectionSink,
+             "TAXIICollectionStore": TAXIICollectionStore}[cname]
+        if m == "add":
+            def f():
+                col = TaxiiCollection()
+                snk = C(col, **ck)
+                pl = d
+                if wrap == "bundle":
+                    pl = bundle_of(d)
+                elif wrap == "list":
+                    pl = [d]
+                elif wrap == "str":
+                    pl = json.dumps(d)
+                snk.add(pl, **vk)
+                if len(col.posted) != 1:
+                    return ["many", len(col.posted)]
+                b = col.posted[0]
+                b = json.loads(b) if isinstance(b, (str, bytes)) else b
+                objs = b.get("objects", [])
+                if len(objs) != 1:
+                    return ["many", len(objs)]
+                return ["ok", None, canon(restrict(objs[0], d)), None]
+            return guard(f, d), ["parse", own_allow(cfg, C.__init__, split=False), False]
+
+        def f():
+            src = C(TaxiiCollection([d]), **ck)
+            if m == "query":
+                r = src.query([Filter("id", "=", oid)], **vk)
+            else:
+                r = getattr(src, m)(oid, **vk)
+            return single(r, d)
+        return guard(f, d), ["parse", own_allow(cfg, C.__init__, split=True), False]
+
 
     def payload():
         if wrap == "bundle":
